@@ -1,6 +1,7 @@
 """Self-test of the binding between specification and code.
 
   python3 lib/selftest.py traces    corrupt a recorded trace / drop a hook event: the trace specification must notice
+  python3 lib/selftest.py devs      every as-built switch of the specification has a witness in the bounded instances
   python3 lib/selftest.py seeds     every stored seeded change must turn its property's check red (and the tree is restored)
 """
 import json, os, subprocess, sys, shutil
@@ -84,5 +85,44 @@ def seeds():
     return 0 if bad == 0 else 1
 
 
+def devs():
+    """Every as-built switch of the specification must have a witness in the bounded instances: with the deviation
+    switched on, TLC has to find a state that violates the (unguarded) design-level invariant.  A switch without a
+    witness would mean the case space cannot tell the repaired code from the code as it was."""
+    import props
+    cfg = props.cfg
+    F3C = {"File": '{"f1.xsd","f2.xsd","f3.xsd"}', "FileSeq": "<- FileSeq3", "Extras": "<- NoExtras", "Siblings": "<- NoSib", "Sample": "1", "SameNs": "FALSE"}
+    table = [
+        ("MC_C02", [{"Slice": '"%s"' % sl} for sl in ("builtins", "positions", "nested", "attrs", "pairs", "toplevel", "form", "homonym")], "AgreementD",
+         ["D08", "D09", "D10", "D11", "D13", "D14", "D30", "D32", "D35", "D39"]),
+        ("MC_C08", [{"MaxDepth": "1", "Kinds": "<- AllKindsX"}], "AgreementD", ["D12", "D14", "D23a", "D32"]),
+        ("MC_C09", [{}], "AgreementD", ["D23a", "D23c", "D37"]),
+        ("MC_C06", [{"Slice": '"int"'}, {"Slice": '"str"'}], "AgreementD", ["D20", "D21"]),
+        ("MC_C10", [{"Shape": '"%s"' % sh, "Small": "TRUE"} for sh in ("two", "chain", "star", "diamond")], "RegistryInvariantD", ["D06", "D06b"]),
+        ("MC_C14", [{"Slice": '"payload"'}], "DesignSafeD", ["D25"]),
+        ("MC_C17", [{}], "DesignOKD", ["D01", "D02"]),
+        ("MC_C11", [dict(F3C, RefsOn="FALSE", MaxCalls="2")], "NoOverflow", ["D03"]),
+        ("MC_C11", [dict(F3C, RefsOn="FALSE", MaxCalls="2")], "RepeatSame", ["D04"]),
+        ("MC_C11", [dict(F3C, RefsOn="TRUE", MaxCalls="1")], "Complete", ["D28", "D28b"]),
+        ("MC_C15", [{"MaxChunks": "3", "MaxLen": "2"}], "NeverPanic", ["D26"]),
+        ("MC_C12", [{"Ops": '{"o1","o2","o3"}', "Parts": '{"auth","bodyPart","trace"}', "NOps": "4"}], "Deterministic", ["D05"]),
+        ("MC_C13", [{"Features": props.FEATURES, "MaxIdx": "4", "ChainN": "5"}], "Robust", ["D24a", "D24b", "D24c", "D24d", "D24e"]),
+    ]
+    bad = 0
+    for module, consts_list, inv, ds in table:
+        for d in ds:
+            found = None
+            for k, consts in enumerate(consts_list):
+                c = cfg("MCSpec", dict(consts, Dev='{"%s"}' % d), invariants=[inv])
+                r = z.tlc(os.path.join(z.SPEC, "mc", module + ".tla"), c, workers=4, timeout=600, name=f"devs_{module}_{d}_{k}")
+                if not r["ok"] and "Invariant " + inv + " is violated" in r["stdout"]:
+                    found = consts
+                    break
+            print(f"{module:8} {d:5} {'witness in ' + json.dumps(found) if found is not None else 'NO WITNESS'}")
+            bad += found is None
+    print("SELFTEST devs:", "ok" if bad == 0 else f"{bad} switches without a witness")
+    return 0 if bad == 0 else 1
+
+
 if __name__ == "__main__":
-    sys.exit({"traces": traces, "seeds": seeds}[sys.argv[1]]())
+    sys.exit({"traces": traces, "seeds": seeds, "devs": devs}[sys.argv[1]]())
